@@ -33,6 +33,7 @@
 #include <utility>
 
 #include <dispenso/platform.h>
+#include <dispenso/detail/verif_hooks.h>
 #include <dispenso/tsan_annotations.h>
 
 namespace dispenso {
@@ -145,7 +146,9 @@ class ChaseLevDeque {
    *       the full/empty check, and the slot write. No fence, no CAS.
    */
   bool try_push(const T& item) {
+    DISPENSO_VERIF_POINT("cl.push.load_bottom", this);
     const int64_t b = bottom_.load(std::memory_order_relaxed);
+    DISPENSO_VERIF_POINT("cl.push.load_top", this);
     const int64_t t = top_.load(std::memory_order_acquire);
     if (b - t >= static_cast<int64_t>(Capacity)) {
       return false;
@@ -155,10 +158,12 @@ class ChaseLevDeque {
     // subsequent push could wrap around to this index. TSAN doesn't model the
     // through-CAS HB chain on non-atomic slot accesses, so annotate as benign.
     DISPENSO_TSAN_ANNOTATE_IGNORE_WRITES_BEGIN();
+    DISPENSO_VERIF_POINT("cl.push.slot_write", this);
     *slotPtr(b) = item;
     DISPENSO_TSAN_ANNOTATE_IGNORE_WRITES_END();
     // Release on bottom_ publishes the slot write to any acquire load of bottom_
     // (i.e., the load in try_steal).
+    DISPENSO_VERIF_POINT("cl.push.store_bottom", this);
     bottom_.store(b + 1, std::memory_order_release);
     return true;
   }
@@ -174,26 +179,33 @@ class ChaseLevDeque {
    *       no CAS — only a relaxed store, a seq_cst fence, and a relaxed load.
    */
   bool try_pop(T& out) {
+    DISPENSO_VERIF_POINT("cl.pop.load_bottom", this);
     const int64_t b = bottom_.load(std::memory_order_relaxed) - 1;
+    DISPENSO_VERIF_POINT("cl.pop.store_bottom", this);
     bottom_.store(b, std::memory_order_relaxed);
     // Seq-cst fence orders our bottom store before the top load, matching steal's fence.
     std::atomic_thread_fence(std::memory_order_seq_cst);
+    DISPENSO_VERIF_POINT("cl.pop.load_top", this);
     int64_t t = top_.load(std::memory_order_relaxed);
 
     if (t > b) {
       // Empty. Restore bottom.
+      DISPENSO_VERIF_POINT("cl.pop.restore_bottom", this);
       bottom_.store(b + 1, std::memory_order_relaxed);
       return false;
     }
     // Read directly into out. Safe because T is trivially copyable; on CAS loss,
     // out is unspecified per the try_* contract.
+    DISPENSO_VERIF_POINT("cl.pop.slot_read", this);
     out = *slotPtr(b);
     if (t < b) {
       // Multiple elements remained; no race possible at this slot.
       return true;
     }
     // t == b: last element. Race with stealers via CAS on top.
+    DISPENSO_VERIF_POINT("cl.pop.store_bottom2", this);
     bottom_.store(b + 1, std::memory_order_relaxed);
+    DISPENSO_VERIF_POINT("cl.pop.cas_top", this);
     return top_.compare_exchange_strong(
         t, t + 1, std::memory_order_seq_cst, std::memory_order_relaxed);
   }
@@ -245,10 +257,12 @@ class ChaseLevDeque {
    *       not exposed; callers may retry on false if work is expected.
    */
   bool try_steal(T& out) {
+    DISPENSO_VERIF_POINT("cl.steal.load_top", this);
     int64_t t = top_.load(std::memory_order_acquire);
     // Seq-cst fence pairs with the fence in try_pop: ensures we observe an updated
     // bottom if the owner has decremented past us.
     std::atomic_thread_fence(std::memory_order_seq_cst);
+    DISPENSO_VERIF_POINT("cl.steal.load_bottom", this);
     const int64_t b = bottom_.load(std::memory_order_acquire);
     if (t >= b) {
       return false;
@@ -262,8 +276,10 @@ class ChaseLevDeque {
     // on top_ orders us against other concurrent stealers. TSAN doesn't model
     // this chain through non-atomic reads, so annotate as benign.
     DISPENSO_TSAN_ANNOTATE_IGNORE_READS_BEGIN();
+    DISPENSO_VERIF_POINT("cl.steal.slot_read", this);
     out = *slotPtr(t);
     DISPENSO_TSAN_ANNOTATE_IGNORE_READS_END();
+    DISPENSO_VERIF_POINT("cl.steal.cas_top", this);
     return top_.compare_exchange_strong(
         t, t + 1, std::memory_order_seq_cst, std::memory_order_relaxed);
   }
